@@ -32,7 +32,8 @@ Load(r) ==
   /\ cache = [i \in IRs |-> {}] /\ nidx = [m \in Modules |-> <<>>] /\ ridx = [m \in Modules |-> <<>>]
   /\ built = [x \in LazyOwners |-> FALSE] /\ nev = [x \in LazyOwners |-> 0]
   /\ tags = [h \in TagHolders |-> {}] /\ entry = [m \in Modules |-> NONE]
-  /\ op = [name |-> "judge"]
+  /\ scal = [h \in ScalHolders |-> [f \in FieldsOf(h) |-> ScalDef[f]]] /\ shadow = [i \in IRs |-> NoShadow]
+  /\ op = [name |-> "judge"] /\ obs = <<>>
 
 JInit == idx \in 1..N /\ Load(Recs[idx])
 JNext == FALSE /\ UNCHANGED jvars
